@@ -39,11 +39,11 @@ def run_tv(ctx, n_tables, n_2d, max_len=800):
         n = len(c['sig'])
         per_epoch = i % 2 == 1
         L = int([n // 2, n // 3, n // 5, max(8, n // 12), n][i % 5])
-        r = tt.record_epochs2d(c, L, per_epoch, rng, layout=i // 2)
+        r = tt.record_epochs2d(c, L, per_epoch, rng, layout=i // 2, same_object=(i % 6 == 5))
         if r is None:
             continue
         recs2.append(r)
-        metas2.append({'kind': c['kind'], 'array': ['c_contiguous', 'fortran_order', 'strided_view', 'transposed_view'][(i // 2) % 4], 'n': n, 'epoch_len': L, 'epochs': n // L, 'per_epoch_options': per_epoch, 'method': c['opts']['burst_method'],
+        metas2.append({'kind': c['kind'], 'array': ['c_contiguous', 'fortran_order', 'strided_view', 'transposed_view'][(i // 2) % 4], 'n': n, 'epoch_len': L, 'epochs': n // L, 'per_epoch_options': per_epoch, 'one_dictionary_object_repeated': bool(per_epoch and i % 6 == 5), 'method': c['opts']['burst_method'],
                        'centre': c['opts']['center_extrema'], 'empty_epochs': sum(1 for t in r['out'] if not t)})
     tt.judge(ctx, recs2, metas2, PREFIXES, 'axis_none')
     ctx.nontrivial += nontriv + sum(1 for m in metas2 if m['epochs'] >= 2)
